@@ -150,6 +150,8 @@ func checkKernel(w *load.World, c *core.Collector, f *asmFunc, props []string) {
 	if !usesYLen {
 		c.Notef("ASM: %s consults only len(x); equal operand lengths are the callers' obligation (VALID)", f.name)
 	}
+	f = normaliseAddressing(f, px, py, cnt)
+	at = func(i int) string { return fmt.Sprintf("%s:%d", rel, f.ins[i].line) }
 	// every instruction is one the two analyses give a meaning to; in particular nothing touches the
 	// floating-point control state (LDMXCSR: flush-to-zero changes the products of denormal inputs)
 	known := map[string]bool{"MOVQ": true, "MOVL": true, "LEAQ": true, "ADDQ": true, "SUBQ": true, "INCQ": true, "DECQ": true, "NEGQ": true,
@@ -1270,4 +1272,174 @@ func checkKernel(w *load.World, c *core.Collector, f *asmFunc, props []string) {
 	} else {
 		c.Add("ASM", f.name+":accumulators", core.OK, rel, fmt.Sprintf("%d accumulators folded", len(accs)), props...)
 	}
+}
+
+// normaliseAddressing rewrites two addressing forms into the pointer form the traversal check
+// reads, when — and only when — the rewrite provably leaves every address unchanged:
+//
+//	shared byte cursor   XORQ R,R at the top; both base pointers are never written; R occurs only
+//	                     as d(base)(R*1) and in ADDQ $c,R. Then d(base)(R*1) is d(base) with both
+//	                     bases advanced by c wherever R was.
+//	difference register  SUBQ px,py at the top (py becomes y−x); py is never written again and
+//	                     occurs only as d(px)(py*1); px is only written by ADDQ $c,px. Then
+//	                     d(px)(py*1) is d(py) with py advanced in step with px.
+//
+// Anything that does not fit is returned as it is (and decided, or not, by the other forms).
+func normaliseAddressing(f *asmFunc, px, py, cnt string) *asmFunc {
+	firstLabel := len(f.ins)
+	for _, idx := range f.label {
+		if idx < firstLabel {
+			firstLabel = idx
+		}
+	}
+	dest := func(in asmIns) string {
+		if len(in.args) == 0 || in.op == "CMPQ" || in.op == "TESTQ" || strings.HasPrefix(in.op, "J") {
+			return ""
+		}
+		return in.args[len(in.args)-1]
+	}
+	isLoadOf := func(in asmIns, reg string) bool {
+		return in.op == "MOVQ" && len(in.args) == 2 && in.args[1] == reg && strings.Contains(in.args[0], "(FP)")
+	}
+	rebuild := func(edit func(i int, in asmIns) []asmIns) *asmFunc {
+		g := &asmFunc{name: f.name, file: f.file, label: map[string]int{}}
+		newIdx := make([]int, len(f.ins)+1)
+		for i, in := range f.ins {
+			newIdx[i] = len(g.ins)
+			g.ins = append(g.ins, edit(i, in)...)
+		}
+		newIdx[len(f.ins)] = len(g.ins)
+		for l, idx := range f.label {
+			g.label[l] = newIdx[idx]
+		}
+		return g
+	}
+	mentions := func(a, reg string) bool {
+		if a == reg {
+			return true
+		}
+		if m := memRe.FindStringSubmatch(a); m != nil && (m[2] == reg || m[3] == reg) {
+			return true
+		}
+		return false
+	}
+	// ---- shared byte cursor
+	for zi, zin := range f.ins[:firstLabel] {
+		if !((zin.op == "XORQ" || zin.op == "XORL") && len(zin.args) == 2 && zin.args[0] == zin.args[1]) {
+			continue
+		}
+		r := zin.args[0]
+		if r == px || r == py || r == cnt || !(len(r) == 2 || len(r) == 3) || strings.HasPrefix(r, "X") || strings.HasPrefix(r, "Y") {
+			continue
+		}
+		ok, used := true, false
+		for i, in := range f.ins {
+			if i == zi {
+				continue
+			}
+			// the bases stay where they are
+			if d := dest(in); (d == px || d == py) && !isLoadOf(in, d) {
+				ok = false
+			}
+			for ai, a := range in.args {
+				m := memRe.FindStringSubmatch(a)
+				if m != nil && (m[2] == px || m[2] == py) {
+					if m[3] != r || m[4] != "1" {
+						ok = false // every access goes through the cursor
+					}
+					used = true
+					continue
+				}
+				if !mentions(a, r) {
+					continue
+				}
+				if in.op == "ADDQ" && ai == 1 && a == r {
+					if _, isImm := imm(in.args[0]); isImm {
+						continue
+					}
+				}
+				ok = false
+			}
+		}
+		if !ok || !used {
+			continue
+		}
+		return rebuild(func(i int, in asmIns) []asmIns {
+			if i == zi {
+				return nil
+			}
+			if in.op == "ADDQ" && len(in.args) == 2 && in.args[1] == r {
+				return []asmIns{{in.line, "ADDQ", []string{in.args[0], px}}, {in.line, "ADDQ", []string{in.args[0], py}}}
+			}
+			out := asmIns{in.line, in.op, append([]string{}, in.args...)}
+			for ai, a := range out.args {
+				if m := memRe.FindStringSubmatch(a); m != nil && m[3] == r {
+					out.args[ai] = m[1] + "(" + m[2] + ")"
+				}
+			}
+			return []asmIns{out}
+		})
+	}
+	// ---- difference register
+	for si, sin := range f.ins[:firstLabel] {
+		if !(sin.op == "SUBQ" && len(sin.args) == 2 && sin.args[0] == px && sin.args[1] == py) {
+			continue
+		}
+		ok, used := true, false
+		for i, in := range f.ins {
+			if i == si {
+				continue
+			}
+			if i < si && !isLoadOf(in, py) && !isLoadOf(in, px) {
+				for _, a := range in.args {
+					if mentions(a, py) || mentions(a, px) {
+						ok = false // used before the subtraction
+					}
+				}
+			}
+			if d := dest(in); d == py && !isLoadOf(in, py) {
+				ok = false
+			}
+			if d := dest(in); d == px && !isLoadOf(in, px) {
+				if _, isImm := imm(in.args[0]); !(in.op == "ADDQ" && len(in.args) == 2 && isImm) {
+					ok = false
+				}
+			}
+			for _, a := range in.args {
+				m := memRe.FindStringSubmatch(a)
+				if m != nil && m[3] == py {
+					if m[2] != px || m[4] != "1" {
+						ok = false
+					}
+					used = true
+					continue
+				}
+				if m != nil && (m[2] == py || (m[3] != "" && m[2] == px)) {
+					ok = false
+				}
+				if a == py && !isLoadOf(in, py) {
+					ok = false
+				}
+			}
+		}
+		if !ok || !used {
+			continue
+		}
+		return rebuild(func(i int, in asmIns) []asmIns {
+			if i == si {
+				return nil
+			}
+			out := asmIns{in.line, in.op, append([]string{}, in.args...)}
+			for ai, a := range out.args {
+				if m := memRe.FindStringSubmatch(a); m != nil && m[3] == py && m[2] == px {
+					out.args[ai] = m[1] + "(" + py + ")"
+				}
+			}
+			if in.op == "ADDQ" && len(in.args) == 2 && in.args[1] == px {
+				return []asmIns{out, {in.line, "ADDQ", []string{in.args[0], py}}}
+			}
+			return []asmIns{out}
+		})
+	}
+	return f
 }
